@@ -25,15 +25,69 @@ class EventLog:
         return digest(self.events)
 
 
+def item_closure(world, chosen):
+    """Smallest set of dictionary items (cells, then names) that holds
+    ``chosen`` and everything its members refer to - every cell standing
+    anywhere inside a referenced area, every name used."""
+    from .world import Index
+    from .expr import refs_of, rect_cells
+    idx, nc = Index(world), len(world['cells'])
+    out, stack = set(), list(chosen)
+    while stack:
+        k = stack.pop()
+        if k in out:
+            continue
+        out.add(k)
+        if k < nc:
+            refs = refs_of(world['cells'][k].get('f') or ['n', 0])
+        else:
+            n = world['names'][k - nc]
+            refs = [['nm', n['alias']]] if n.get('alias') is not None \
+                else [n['t']]
+        for x in refs:
+            if x[0] == 'nm':
+                stack.append(nc + x[1])
+            else:
+                for q in rect_cells(x):
+                    o = idx.occupant(q)
+                    if o is not None:
+                        stack.append(o)
+    return out
+
+
 def build_dict_model(world, placement, order=None, compact=1, circular=False,
-                     log=None, model_cls=None):
-    """ExcelModel from a dictionary whose items are in ``order``."""
+                     log=None, model_cls=None, split=None, mid_calc=False):
+    """ExcelModel from a dictionary whose items are in ``order``.
+
+    split=n: built in two stages, each closed with finish(); the first stage
+    is the reference closure of the first n items of the order, so that
+    nothing of it refers to the second."""
     from formulas import ExcelModel
     items = dict_items(world, placement)
-    if order is not None:
-        assert sorted(k for k in order if k < len(items)) == \
-            list(range(len(items))), 'order must cover every item'
-        items = [items[k] for k in order if k < len(items)]
+    if order is None:
+        order = list(range(len(items)))
+    assert sorted(k for k in order if k < len(items)) == \
+        list(range(len(items))), 'order must cover every item'
+    order = [k for k in order if k < len(items)]
+    if split and not world.get('vnames') and not world['names']:
+        first = item_closure(world, order[:split])
+        if len(first) < len(items):
+            m = (model_cls or ExcelModel)()
+            if log:
+                log.add('loader', 'from_dict', n=len(first), stage=1)
+            m.from_dict(dict(items[k] for k in order if k in first))
+            if circular:
+                m.finish(complete=False, circular=True)
+            if mid_calc:
+                m.calculate()
+            if log:
+                log.add('loader', 'from_dict', n=len(items) - len(first),
+                        stage=2)
+            m.from_dict(dict(items[k] for k in order if k not in first))
+            if circular:
+                m.finish(complete=False, circular=True)
+            return m
+    items = [items[k] for k in order]
     d = dict(items)
     m = (model_cls or ExcelModel)()
     if log:
